@@ -126,6 +126,23 @@ class IntE(enum.Enum):
     seven = 7
 
 
+class IntMix(int, enum.Enum):      # members ARE ints (isinstance(m, int)): a number fast path must not bypass the Enum branch
+    high = 3
+
+
+class FloatMix(float, enum.Enum):
+    half = 0.5
+
+
+class IntEnumE(enum.IntEnum):
+    ten = 10
+
+
+class FlagE(enum.IntFlag):
+    a = 1
+    b = 2
+
+
 def scalar_cases(rnd):
     """(label, value, alternatives builder) for the non-string kinds; the decode of numerics is done here in
     Python on the token text found by the lexer, TLC checks the token structure"""
@@ -135,6 +152,7 @@ def scalar_cases(rnd):
         ("date", datetime.date(2020, 2, 29)), ("time", datetime.time(1, 2, 3)), ("datetime", datetime.datetime(2020, 1, 2, 3, 4, 5, 6)),
         ("datetimetz", datetime.datetime(2020, 1, 2, 3, 4, 5, tzinfo=datetime.timezone.utc)),
         ("uuid", uuid.UUID("12345678-1234-5678-1234-567812345678")), ("enum", Color.red), ("strenum", StrE.x), ("strenum", StrPlain.member), ("intenum", IntE.seven),
+        ("intenum", IntMix.high), ("intenum", FloatMix.half), ("intenum", IntEnumE.ten), ("intenum", FlagE.a | FlagE.b),
         ("json", {"a": [1, "q'r", 'd"e'], "b\\": None}), ("json", {"k": "plain", "n": [1, 2.5, True, None]}),
         ("json", {"k": "plain"}), ("jsonlist", ["x", "y"]), ("json", {"author": "O'Brien"}), ("json", {"t": True}), ("json", {"n": None}),
         ("json", {"q": 'say "hi"'}), ("json", {"p": "C:\\dir"}), ("jsonlist", [1, {"deep": ["é", 2.5]}]),
